@@ -111,3 +111,162 @@ class Rig:
         asyncio.set_event_loop(self.loop)
         ok = self.loop.run_until_complete(go())
         return ok, list(self.processes.log)
+
+
+# --------------------------------------------------------------------------------------------
+# C14: the REAL Processes object behind the rig, each API process replaced by a pair of pipes.
+# Additive: nothing above is changed.
+
+
+class FakeProc:
+    """Stands for the subprocess.Popen of one API process.
+    stdout: read end of a pipe the harness writes the process's bytes to (`feed_fd`);
+    stdin:  write end of a pipe the harness reads ExaBGP's answers from (`reply_fd`)."""
+
+    def __init__(self):
+        import fcntl
+        import os
+
+        r, w = os.pipe()
+        self.stdout = os.fdopen(r, 'rb', 0)
+        self.feed_fd = w
+        r2, w2 = os.pipe()
+        self.stdin = os.fdopen(w2, 'wb', 0)
+        self.reply_fd = r2
+        for fd in (r, r2, w2):
+            fcntl.fcntl(fd, fcntl.F_SETFL, fcntl.fcntl(fd, fcntl.F_GETFL) | os.O_NONBLOCK)
+        self.returncode = None
+        self.terminated = False
+
+    def poll(self):
+        return None
+
+    def terminate(self):
+        self.terminated = True
+
+    kill = terminate
+
+    def wait(self, timeout=None):
+        return 0
+
+    def close(self):
+        import os
+
+        for f in (self.stdout, self.stdin):
+            try:
+                f.close()
+            except OSError:
+                pass
+        for fd in (self.feed_fd, self.reply_fd):
+            try:
+                os.close(fd)
+            except OSError:
+                pass
+
+
+def real_processes(services, max_command_size=None):
+    """A real exabgp Processes in async mode whose processes are FakeProc pipes.
+    -> (processes, {service: FakeProc})"""
+    from exabgp.reactor.api.processes import Processes
+
+    procs = Processes()
+    procs.respawn_number = 0
+    procs._async_mode = True
+    procs._loop = None
+    if max_command_size is not None:
+        procs.MAX_COMMAND_SIZE = max_command_size  # instance attribute shadows the class constant
+    fakes = {}
+    for name in services:
+        fp = FakeProc()
+        fakes[name] = fp
+        procs._process[name] = fp
+        procs._ack[name] = True
+        procs._ackjson[name] = False
+        procs._restart[name] = False
+        procs._configuration[name] = {'run': '', 'respawn': False}
+    procs._update_fds()
+    return procs, fakes
+
+
+def feed_chunk(procs, fakes, service, chunk: bytes):
+    """Deliver exactly `chunk` (<= 16384 bytes) as ONE read of the real reader callback."""
+    import os
+
+    assert len(chunk) <= 16384
+    if chunk:
+        os.write(fakes[service].feed_fd, chunk)
+    procs._async_reader_callback(service)
+
+
+def read_replies(fake):
+    """Everything ExaBGP wrote to the process's stdin so far, as lines."""
+    import os
+
+    data = b''
+    while True:
+        try:
+            part = os.read(fake.reply_fd, 65536)
+        except BlockingIOError:
+            break
+        if not part:
+            break
+        data += part
+    return data.decode('ascii', 'replace').split('\n')[:-1] if data else []
+
+
+class PipeRig(Rig):
+    """Rig whose reactor talks to a real Processes object (FakeProc pipes), driven like the main
+    loop: pop ONE command (received_async), API.process, drain the scheduled callbacks, flush."""
+
+    def __init__(self, conf_text: str = DEFAULT_CONF, api_version: int = 6, services=('svc',), max_command_size=None):
+        super().__init__(conf_text, api_version, services[0])
+        self.services = list(services)
+        for n in self.configuration.neighbors.values():
+            n.api['processes'] = list(services)
+        self.processes, self.fakes = real_processes(services, max_command_size)
+        self.reactor.processes = self.processes
+        self.reactor.asynchronous.set_error_handler(self.processes.answer_error_sync)
+
+    def close(self):
+        for fp in self.fakes.values():
+            fp.close()
+        super().close()
+
+    def feed(self, service, chunk: bytes):
+        feed_chunk(self.processes, self.fakes, service, chunk)
+
+    def step(self):
+        """One main-loop iteration's worth of API work.
+        -> None when no command waits, else (service, command, reply lines per service)"""
+
+        async def go():
+            got = list(self.processes.received_async())
+            if not got:
+                return None
+            for service, command in got:
+                self.reactor.api.process(self.reactor, service, command)
+            for _ in range(50):
+                if not self.reactor.asynchronous._async:
+                    break
+                await self.reactor.asynchronous._run_async()
+            await self.processes.flush_write_queue()
+            for _ in range(200):
+                if not any(self.processes._write_queue.get(s) for s in self.services):
+                    break
+                await self.processes.flush_write_queue()
+            return got[0]
+
+        asyncio.set_event_loop(self.loop)
+        got = self.loop.run_until_complete(go())
+        if got is None:
+            return None
+        replies = {s: read_replies(fp) for s, fp in self.fakes.items()}
+        return got[0], got[1], replies
+
+    def drain(self):
+        out = []
+        while True:
+            r = self.step()
+            if r is None:
+                return out
+            out.append(r)
